@@ -36,6 +36,18 @@ def pinned_layouts():
     return _PIN
 
 
+def pinned_struct(key):
+    """fields (name, start, width, signed) of the pinned `retArrHeader` / `optionalInt` struct"""
+    import os
+    import re
+    text = open(os.path.join(common.LEAN_DIR, "NetqasmVerif", "Model", "MsgSpec.lean")).read()
+    m = re.search(key + r' := ⟨"\w+", \d+, \[(.*?)\]⟩', text)
+    if not m:
+        raise RuntimeError("pinned struct %s not found" % key)
+    return [(f.group(1), int(f.group(2)), int(f.group(3)), f.group(4) == "true")
+            for f in re.finditer(r'⟨"([\w.]+)", (\d+), (\d+), (true|false)⟩', m.group(1))]
+
+
 def pinned_width(cls_name, path, live_width, live_signed):
     """width / signedness of a leaf as PINNED (the declared widths of the property); the live
     descriptor's only if the pinned formats do not know the field"""
